@@ -438,7 +438,18 @@ impl Prop for C17 {
                     "3/", "/3", "", "1/1/1/1/1/1/1/1/1/1/1/1/1/1/1/1/1/1/1/1/1/1/1/1/1/1/1/1/1/1/1/1/1", "-3", "3.0", "٣",
                 ]))
                 .to_string();
-                let nvals = rng.range(0, 6);
+                // half of the time the shape is composed freely from boundary axis lengths, so that
+                // zero-length, unit and overflowing axes meet in every combination and order
+                let shape_txt = if rng.chance(1, 2) {
+                    let d = rng.range(1, 4);
+                    (0..d)
+                        .map(|_| *rng.pick(&["0", "0", "1", "2", "3", "65536", "4294967295", "4294967296", "9223372036854775807", "9223372036854775808", "18446744073709551615"]))
+                        .collect::<Vec<_>>()
+                        .join("/")
+                } else {
+                    shape_txt
+                };
+                let nvals = if shape_txt.split('/').any(|a| a == "0") && rng.chance(1, 2) { 0 } else { rng.range(0, 6) };
                 let values: Vec<String> = (0..nvals).map(|_| (*rng.pick(&["1", "0", "2.5", "nan", "inf", "-inf", "1e999", "1e-999", "0x1p3", "1_0", "", "+.5"])).to_string()).collect();
                 let bytes = if rng.chance(2, 3) {
                     text_spectrum(&shape_txt, &values.join(" "))
